@@ -42,7 +42,7 @@ m = {
     ],
     "checks": checks,
     "not_applicable": na,
-    "notes": "All checks: exit 0 / 'VIOLATION property=<id> replay=<path>' contract; KNOWN-FINDING lines for defects listed in /verif/known-findings.json. VERIF_SEED seeds every generator.",
+    "notes": "All checks: exit 0 / 'VIOLATION property=<id> replay=<path>' contract; KNOWN-FINDING lines for defects listed in /verif/known-findings.json. VERIF_SEED seeds every generator. Exit 0 ('OK') means: every proof obligation of the property checked against facts regenerated from the current tree, the correspondence between model and real code held on everything generated, and no violation outside known-findings.json was found. It does NOT mean the property holds in full when a KNOWN-FINDING line is printed: that line says the current code still violates the property at exactly that recorded point (DESIGN.md 6.2 lists them: C02/C05, C07, C08, C10, C11, C12, C16, C17, C18, C19 at the time of writing); the theorems of those properties keep the full statement as a definition with a kernel-checked counter-witness and prove the strongest partial statement. 'theorems=N' in the OK line counts the theorem declarations of the property's Spec module(s) (witness and helper theorems included, one module may serve several properties): it is not a count of property clauses. C13 is claimed partial (shutdown protocol proved, data-race freedom and latencies explored).",
 }
 json.dump(m, open(os.path.join(ROOT, "MANIFEST.json"), "w"), indent=1)
 print("checks:", [c["property_id"] for c in checks], "n/a:", len(na))
